@@ -142,6 +142,33 @@ def gen_fresh_names_case(cid, rnd, reps=8):
     return {"id": cid, "base": [], "threads": threads, "tags": ["fresh-names"]}
 
 
+def gen_fresh_usage_names_case(cid, rnd, reps=8):
+    """the usage side of the same hazard: several test modules that all NAME the same fixtures - in a module-level
+    `pytestmark = ...usefixtures(...)`, a decorator, plain parameters - and switch, round after round, between two
+    disjoint sets of names: in every round every name is absent from the name -> usages map and is entered for
+    the first time by all threads at once"""
+    root = "/vz%d" % (cid % 3)
+    nfiles = rnd.choice([2, 3])
+    nnames = rnd.choice([12, 30])
+    form = rnd.choice(["pytestmark", "pytestmark-list", "decorator", "params"])
+
+    def text(prefix, k):
+        names = ["%s_%d" % (prefix, j) for j in range(nnames)]
+        if k % 2:
+            names.reverse()
+        q = ", ".join('"%s"' % n for n in names)
+        if form == "pytestmark":
+            return "import pytest\npytestmark = pytest.mark.usefixtures(%s)\n\ndef test_u():\n    pass\n" % q
+        if form == "pytestmark-list":
+            return "from pytest import mark\npytestmark = [mark.django_db, mark.usefixtures(%s)]\n\ndef test_u():\n    pass\n" % q
+        if form == "decorator":
+            return "import pytest\n\n@pytest.mark.usefixtures(%s)\ndef test_u():\n    pass\n" % q
+        return "def test_u(%s):\n    pass\n" % ", ".join(names)
+    files = [root + "/pkg_%d/test_u.py" % k for k in range(nfiles)]
+    threads = [[{"op": "analyze", "path": p, "text": text("ua" if i % 2 == 0 else "ub", k)} for i in range(reps)] for k, p in enumerate(files)]
+    return {"id": cid, "base": [], "threads": threads, "tags": ["fresh-usage-names:" + form]}
+
+
 def run_conc(h4, cases, seeds, tmp):
     """each case under every chaos seed, plus one sequential reference"""
     ref_cases = [{"id": c["id"], "ops": c["base"] + [o for t in c["threads"] for o in t] + [{"op": "dump"}]} for c in cases]
@@ -247,6 +274,7 @@ def run(r):
         cases += [gen_fresh_names_case(2000 + i, rnd) for i in range(8 if quick else 60)]
         cases += [gen_usage_hazard_case(3000 + i, rnd) for i in range(6 if quick else 40)]
         cases += [gen_interleave_case(4000 + i, rnd) for i in range(6 if quick else 40)]
+        cases += [gen_fresh_usage_names_case(5000 + i, rnd) for i in range(12 if quick else 60)]
         seeds = [r.seed * 100 + k for k in range(6 if quick else 30)]
         results = run_conc(h4, cases, seeds, tmp)
     finally:
